@@ -19,9 +19,41 @@ package parser
 import (
 	"fmt"
 	"reflect"
+	"strings"
 
 	"github.com/knadh/koanf/maps"
 )
+
+// expand resolves "." delimited keys of maps, which are elements of slices, into nested maps. koanf does this
+// only for maps, which are not nested in slices. It is applied to the configuration built from environment
+// variables, where "." separates the segments of a variable name.
+func expand(val any) any {
+	switch typedVal := val.(type) {
+	case map[string]any:
+		result := make(map[string]any, len(typedVal))
+
+		for key, value := range typedVal {
+			parts := strings.Split(key, ".")
+			nested := expand(value)
+
+			for i := len(parts) - 1; i > 0; i-- {
+				nested = map[string]any{parts[i]: nested}
+			}
+
+			result[parts[0]] = merge(result[parts[0]], nested)
+		}
+
+		return result
+	case []any:
+		for i, value := range typedVal {
+			typedVal[i] = expand(value)
+		}
+
+		return typedVal
+	default:
+		return val
+	}
+}
 
 func merge(dest, src any) any {
 	if dest == nil {
